@@ -13,9 +13,12 @@ ALL bundles (arbitrary vote lists), ALL ledgers and ALL signature / credential o
   what was signed (`wrong_round_rejected` …) need cryptography and take it as the hypothesis `IdealSig` (a
   signature verifies only on the exact raw vote it was made on) — never as an axiom; `tokEnv_ideal` shows the
   driver's instance meets it.
+* `tracker_bundle_accepted`: bridge to C06 — a bundle passing the structural `Model.VoteTracker.Bundle.verify` (what
+  `genBundle_valid` gives for every emitted threshold event) is accepted here once its votes verify.
 -/
 import AlgoVerif.Lemmas.Bundle
 import AlgoVerif.Gen.BundleSteps
+import AlgoVerif.Model.VoteTracker
 namespace Props.C04
 open AlgoVerif.Model.Bundle AlgoVerif.Lemmas.Bundle
 
@@ -758,6 +761,105 @@ theorem bottom_certificate_rejected (env : Env Cred Sig) (c : UBundle Cred Sig) 
   have hs := ((cert_accept_iff env c e W).mp hacc).1
   exact cert_rejected_of_bundle_rejected env c e (bottom_cert_rejected env c a ha (Or.inl hs) hb) W hacc
 
+/-! ### bridge to C06: a bundle that passes the structural `Model.VoteTracker.Bundle.verify` (what `genBundle_valid`
+establishes for every emitted threshold event) is accepted by the full verifier once its votes are realised by
+authenticators that verify -/
+
+section Bridge
+open AlgoVerif.Model
+
+theorem nodupNat_nodup (l : List Nat) : VoteTracker.nodupNat l = true → l.Nodup := by
+  induction l with
+  | nil => intro _; exact List.nodup_nil
+  | cons a rest ih =>
+    simp only [VoteTracker.nodupNat, Bool.and_eq_true, Bool.not_eq_true']
+    rintro ⟨h1, h2⟩
+    refine List.nodup_cons.mpr ⟨?_, ih h2⟩
+    intro hm
+    have : rest.contains a = true := List.contains_iff_mem.mpr hm
+    rw [this] at h1; cases h1
+
+/-- the `unauthenticatedBundle` made from a tracker bundle: value ids become proposal values, every sender brings
+its credential, every (sender, value) its signature -/
+def realise (r p : Nat) (c : VoteTracker.Cfg) (val : Nat → Proposal) (cred : Nat → Cred) (sig : Nat → Nat → Sig)
+    (tb : VoteTracker.Bundle) : UBundle Cred Sig :=
+  { round := r, period := p, step := c.step, proposal := val tb.proposal,
+    votes := tb.votes.map fun v => ⟨v.sender, cred v.sender, sig v.sender tb.proposal⟩,
+    eqVotes := tb.eqVotes.map fun e => ⟨e.sender, cred e.sender, sig e.sender e.p0, sig e.sender e.p1, val e.p0, val e.p1⟩ }
+
+theorem tracker_bundle_accepted (env : Env Cred Sig) (r p : Nat) (c : VoteTracker.Cfg) (proto : Params)
+    (val : Nat → Proposal) (hinj : ∀ x y, val x = val y → x = y) (cred : Nat → Cred) (sig : Nat → Nat → Sig)
+    (valid : VoteTracker.Vote → Bool) (tb : VoteTracker.Bundle)
+    (hp : env.params (paramsRound r) = some proto) (hT : threshold proto c.step = c.T)
+    (hvalid : ∀ v, valid v = true →
+      verifyVote env ⟨v.sender, r, p, c.step, val v.value⟩ (cred v.sender) (sig v.sender v.value) = .ok v.weight)
+    (h : VoteTracker.Bundle.verify c valid tb = true) :
+    verify env (realise r p c val cred sig tb)
+      = .ok ((tb.votes.map VoteTracker.Vote.weight).sum + (tb.eqVotes.map VoteTracker.EqVote.weight).sum) := by
+  simp only [VoteTracker.Bundle.verify, Bool.and_eq_true, decide_eq_true_eq, Bool.not_eq_true', Bool.or_eq_false_iff,
+    decide_eq_false_iff_not, List.all_eq_true, bne_iff_ne] at h
+  obtain ⟨⟨⟨⟨⟨hstep, ⟨hnv, hne⟩, hsum⟩, hnd⟩, hvs⟩, hes⟩, hq⟩ := h
+  have hvv : ∀ v ∈ tb.votes, VoteValid env ⟨v.sender, r, p, c.step, val tb.proposal⟩ (cred v.sender) (sig v.sender tb.proposal)
+      ∧ env.credWeight v.sender r p c.step (cred v.sender) = some v.weight := by
+    intro v hv
+    exact (vote_accept_iff _ _ _ _ _).mp (hvalid ⟨v.sender, v.weight, tb.proposal⟩ (hvs v hv))
+  have hev : ∀ e ∈ tb.eqVotes, EqValid env r p c.step
+      (⟨e.sender, cred e.sender, sig e.sender e.p0, sig e.sender e.p1, val e.p0, val e.p1⟩ : EqAuth Cred Sig)
+      ∧ env.credWeight e.sender r p c.step (cred e.sender) = some e.weight := by
+    intro e he
+    obtain ⟨⟨hd, h0⟩, h1⟩ := hes e he
+    obtain ⟨hv0, hw0⟩ := (vote_accept_iff _ _ _ _ _).mp (hvalid ⟨e.sender, e.weight, e.p0⟩ h0)
+    obtain ⟨hv1, _⟩ := (vote_accept_iff _ _ _ _ _).mp (hvalid ⟨e.sender, e.weight, e.p1⟩ h1)
+    exact ⟨⟨fun hval => hd (hinj _ _ hval), hv0, hv1⟩, hw0⟩
+  have hwv : ∀ l : List VoteTracker.Vote, (∀ v ∈ l, v ∈ tb.votes) →
+      ((l.map fun v => (⟨v.sender, cred v.sender, sig v.sender tb.proposal⟩ : VoteAuth Cred Sig)).map
+        fun a => credW env a.sender r p c.step a.cred).sum = (l.map VoteTracker.Vote.weight).sum := by
+    intro l
+    induction l with
+    | nil => intro _; rfl
+    | cons v rest ih =>
+      intro hsub
+      have hw := (hvv v (hsub v List.mem_cons_self)).2
+      simp only [List.map_cons, List.sum_cons]
+      rw [ih (fun x hx => hsub x (List.mem_cons_of_mem _ hx))]
+      unfold credW; rw [hw]
+  have hwe : ∀ l : List VoteTracker.EqVote, (∀ e ∈ l, e ∈ tb.eqVotes) →
+      ((l.map fun e => (⟨e.sender, cred e.sender, sig e.sender e.p0, sig e.sender e.p1, val e.p0, val e.p1⟩ : EqAuth Cred Sig)).map
+        fun a => credW env a.sender r p c.step a.cred).sum = (l.map VoteTracker.EqVote.weight).sum := by
+    intro l
+    induction l with
+    | nil => intro _; rfl
+    | cons e rest ih =>
+      intro hsub
+      have hw := (hev e (hsub e List.mem_cons_self)).2
+      simp only [List.map_cons, List.sum_cons]
+      rw [ih (fun x hx => hsub x (List.mem_cons_of_mem _ hx))]
+      unfold credW; rw [hw]
+  have htot : totalWeight env (realise r p c val cred sig tb)
+      = (tb.votes.map VoteTracker.Vote.weight).sum + (tb.eqVotes.map VoteTracker.EqVote.weight).sum := by
+    unfold totalWeight votesWeight eqVotesWeight realise
+    simp only []
+    rw [hwv tb.votes (fun _ h => h), hwe tb.eqVotes (fun _ h => h)]
+  refine (bundle_accept_iff _ _ _).mpr ⟨⟨hstep, ⟨proto, hp, ?_, ?_, ?_, ?_⟩, ?_, ?_, ?_⟩, htot.symm⟩
+  · simp only [realise, List.length_map]; omega
+  · simp only [realise, List.length_map]; omega
+  · simp only [realise, List.length_map]; omega
+  · rw [htot]
+    simp only [VoteTracker.reachesQuorum, if_neg hstep, decide_eq_true_eq] at hq
+    simp only [realise]; omega
+  · have := nodupNat_nodup _ hnd
+    simpa [senders, realise, List.map_map, Function.comp_def] using this
+  · intro a ha
+    simp only [realise, List.mem_map] at ha
+    obtain ⟨v, hv, rfl⟩ := ha
+    exact (hvv v hv).1
+  · intro e he
+    simp only [realise, List.mem_map] at he
+    obtain ⟨e', he', rfl⟩ := he
+    exact (hev e' he').1
+
+end Bridge
+
 /-! ### non-vacuity: a concrete accepted bundle in the driver's token instance, and the hypotheses met on it -/
 
 section Examples
@@ -817,6 +919,20 @@ example : authenticate exEnv exB ⟨5, 8⟩ = .error .certDigest := by decide
 example : (exEnv.member 1 12 0 2 = some ⟨0, 9⟩) ∧ (9 : Nat) ≠ 0 ∧ 9 < 12 := by decide
 example : toGen ⟨1, 2, 3, 4, 5, 6⟩ = ⟨1, 2, 3, 4, 5, 6⟩ := rfl
 example : paramsRound 1 = 0 ∧ paramsRound 7 = 5 ∧ (7 : Nat) < 2 ^ 64 := by decide
+
+-- the bridge's hypotheses on a concrete tracker bundle (two accepted votes of weight 1 for value 7, threshold 2)
+def exVal' (k : Nat) : Proposal := ⟨0, 1, k, 1⟩
+def exTB : AlgoVerif.Model.VoteTracker.Bundle := ⟨7, [⟨1, 1, 7⟩, ⟨2, 1, 7⟩], []⟩
+example : verify exEnv (realise 5 0 ⟨2, 2⟩ exVal' (fun k => (⟨k, 5, 0, 2, 1, false⟩ : CredTok))
+    (fun k v => (⟨k, ⟨k, 5, 0, 2, exVal' v⟩, false⟩ : SigTok)) exTB) = .ok 2 :=
+  tracker_bundle_accepted exEnv 5 0 ⟨2, 2⟩ ⟨2, 2, 2, 2, 2, 2⟩ exVal' (by intro x y h; injection h) _ _
+    (fun v => decide (v ∈ exTB.votes)) exTB rfl rfl
+    (by
+      intro v hv
+      have hv' : v ∈ exTB.votes := of_decide_eq_true hv
+      simp only [exTB, List.mem_cons, List.not_mem_nil, or_false] at hv'
+      rcases hv' with rfl | rfl <;> decide)
+    (by decide)
 
 end Examples
 
